@@ -97,3 +97,44 @@ fn c03_blocks_conserve_rows_3() {
     }
     kani::assert(k == n, "C03: trailing partial block lost");
 }
+
+/// bounded (one concrete input): three stacked rows of width 40 (so the third row does not fit the 100-colour block any more):
+/// every block is a full rectangle within the capacity, rows are never split, and every row's colours arrive once, in order
+#[kani::proof]
+#[kani::unwind(102)]
+fn c03_block_capacity_rows() {
+    // concrete geometry (symbolic positions / widths make CBMC run for more than 30 minutes on the 100-colour vector)
+    let w: usize = 40;
+    let (x0, y0): (u16, u16) = (7, 9);
+    let mk = |k: u16| {
+        let mut colors = RowColors::<Rgb565>::new();
+        let mut i = 0u16;
+        while (i as usize) < w { let _ = colors.push(colour(k * 64 + i)); i += 1; }
+        PixelRow { x_left: x0, x_right: x0 + (w as u16 - 1), y: y0 + k, colors }
+    };
+    let rows = [mk(0), mk(1), mk(2)];
+    let mut blocks = to_blocks(rows.into_iter());
+    let mut k = 0usize;    // rows accounted for
+    let mut guard = 0;
+    let probe: usize = 13;
+    while guard < 4 {
+        guard += 1;
+        match blocks.next() {
+            None => break,
+            Some(b) => {
+                let bw = b.x_right as usize - b.x_left as usize + 1;
+                let bh = b.y_bottom as usize - b.y_top as usize + 1;
+                kani::assert(b.colors.len() == bw * bh && b.colors.len() <= 100, "C03: C08: block colours do not fill its window exactly");
+                kani::assert(bw == w && b.x_left == x0 && b.y_top as usize == y0 as usize + k, "C03: C08: block window does not start at the next row");
+                let mut r = 0;
+                while r < bh && r < 3 {
+                    kani::assert(k < 3, "C03: more rows out than in");
+                    if b.colors.len() == bw * bh { kani::assert(b.colors[r * bw + probe] == colour(k as u16 * 64 + probe as u16), "C03: colours of a row misplaced in the block"); }
+                    k += 1;
+                    r += 1;
+                }
+            }
+        }
+    }
+    kani::assert(k == 3, "C03: a row was lost at the block capacity");
+}
